@@ -33,7 +33,8 @@ theorem icmp4_sound {s : IcmpSt} {pkt : Bytes} {t : Nat} {a : Bytes} {d : Bool} 
       rename_i info hinfo
       split at h; · simp at h
       split at h; · simp at h
-      rename_i hqd hqs
+      split at h; · simp at h
+      rename_i hqd hqs hqp
       split at h; · simp at h
       rename_i id seq hecho
       split at h; · simp at h
@@ -159,6 +160,8 @@ theorem udp4_sound {s : UdpSt} {pkt : Bytes} {t : Nat} {a : Bytes} {d : Bool} {t
   · simp at h
   rename_i info hinfo
   split at h; · simp at h
+  rename_i hqp
+  split at h; · simp at h
   rename_i sp dp hports
   split at h; · simp at h
   rename_i hdst
@@ -217,7 +220,8 @@ theorem udp4_sound {s : UdpSt} {pkt : Bytes} {t : Nat} {a : Bytes} {d : Bool} {t
             exact hsrc
         simp only [L3.src, Bool.and_eq_true, Bool.or_eq_true, decide_eq_true_eq, hpr, hfr',
           hdst'.1, hdst'.2, hany, and_true, true_and]
-        refine ⟨⟨htype, hsrc'⟩, ?_⟩
+        have hqp' : q.proto = 17 := by simpa using hqp
+        refine ⟨⟨⟨htype, hqp'⟩, hsrc'⟩, ?_⟩
         simp
     · simp at hinfo
 
@@ -309,6 +313,8 @@ theorem tcp_sound {s : TcpSt} {pkt : Bytes} {t : Nat} {a : Bytes} {d : Bool} {tm
     rename_i htype
     split at h; · simp at h
     rename_i info hinfo
+    split at h; · simp at h
+    rename_i hqp
     split at h
     · rename_i sp dp sq hports hseq
       split at h; · simp at h
@@ -345,7 +351,7 @@ theorem tcp_sound {s : TcpSt} {pkt : Bytes} {t : Nat} {a : Bytes} {d : Bool} {tm
         simp only [genuineTcp, genuineTcpQuoted, hview, hquote, hpa, hsq, L3.src, Bool.false_eq_true, if_false]
         simp only [Bool.and_eq_true, Bool.or_eq_true, decide_eq_true_eq, hpr, hfr', htype'.1, htype'.2,
           hdst'.1, hdst'.2, hany, and_true, true_and]
-        exact hsrc'
+        exact ⟨by simpa using hqp, hsrc'⟩
     · simp at h
   · simp at h
 
@@ -421,6 +427,8 @@ theorem sack_sound {s : SackSt} {pkt : Bytes} {t : Nat} {a : Bytes} {d : Bool} {
     rename_i htype
     split at h; · simp at h
     rename_i info hinfo
+    split at h; · simp at h
+    rename_i hqp
     split at h
     · rename_i sp dp sq hports hseq
       split at h; · simp at h
@@ -459,7 +467,7 @@ theorem sack_sound {s : SackSt} {pkt : Bytes} {t : Nat} {a : Bytes} {d : Bool} {
           simp only [genuineSackQuoted, hview, hquote, hpa, hsq]
           simp only [Bool.and_eq_true, Bool.or_eq_true, decide_eq_true_eq, hpr, hfr', htype'.1, htype'.2,
             hdst'.1, hdst'.2, hsent, hmn, hmx, and_true, true_and, beq_self_eq_true]
-          exact hsrc'
+          exact ⟨by simpa using hqp, hsrc'⟩
         simp only [genuineSack]
         apply Bool.or_eq_true_iff.mpr
         left
@@ -516,12 +524,12 @@ theorem extractEcho6_spec {pl buf : Bytes} {k id seq : Nat} (hw : Window pl buf 
       · simp at h
     · simp at h
 
-/-- ICMP over IPv6 (partial: the quoted IPv6 header carries no hop-by-hop header, which no probe
-    of this tool has): every accepted outcome is genuine on the bytes the driver read -/
-theorem icmp6_sound_partial {s : IcmpSt} {pkt : Bytes} {t : Nat} {a : Bytes} {d : Bool} {tm : Nat}
+/-- ICMP over IPv6: every accepted outcome is genuine on the bytes the driver read.  (Before the
+    fix for F11 this needed the extra hypothesis that the quoted IPv6 header carries no hop-by-hop
+    header; the driver now demands that the quoted next-header field is ICMPv6, which excludes it.) -/
+theorem icmp6_sound {s : IcmpSt} {pkt : Bytes} {t : Nat} {a : Bytes} {d : Bool} {tm : Nat}
     (hmin : 1 ≤ s.cfg.min)
-    (h : icmpRecv s pkt = .accept t a d tm) (hv6 : ∃ b0, u8 (pkt.take bufSize) 0 = some b0 ∧ b0 / 16 = 6)
-    (hnoq : ∀ k, u8 (pkt.take bufSize) (k + 8 + 6) ≠ some 0 ∨ d = true) :
+    (h : icmpRecv s pkt = .accept t a d tm) (hv6 : ∃ b0, u8 (pkt.take bufSize) 0 = some b0 ∧ b0 / 16 = 6) :
     genuineIcmp6 s.cfg s.sent t a d (pkt.take bufSize) = true ∧ ∃ p ∈ s.sent, p.ttl = t ∧ p.time = tm := by
   unfold icmpRecv at h
   split at h; · simp at h
@@ -542,7 +550,8 @@ theorem icmp6_sound_partial {s : IcmpSt} {pkt : Bytes} {t : Nat} {a : Bytes} {d 
       rename_i info hinfo
       split at h; · simp at h
       split at h; · simp at h
-      rename_i hqd hqs
+      split at h; · simp at h
+      rename_i hqd hqs hqp
       split at h; · simp at h
       rename_i id seq hecho
       split at h; · simp at h
@@ -554,17 +563,14 @@ theorem icmp6_sound_partial {s : IcmpSt} {pkt : Bytes} {t : Nat} {a : Bytes} {d 
       obtain ⟨_, hmn, hmx, hsent, hpm, hpt⟩ := icmpLookup_spec hlk
       refine ⟨?_, p, hpm, hpt, rfl⟩
       obtain ⟨k, hview, hwo⟩ := view6_of_ip6 hip ⟨b0, hb0, hver⟩ hup hic (by omega)
-      have hnz : u8 (pkt.take bufSize) (k + 8 + 6) ≠ some 0 := by
-        rcases hnoq k with h1 | h1
-        · exact h1
-        · simp at h1
-      obtain ⟨qnh, qplen, hquote, hwq, _⟩ := quote6_of_parse hwo hic hinfo hnz
+      have hqp' : info.proto = 58 := by simpa using hqp
+      obtain ⟨qnh, qplen, hquote, hwq, _, hqnh⟩ := quote6_of_parse hwo hic hinfo (by omega)
       obtain ⟨ety, e1, hety, e2, e3⟩ := extractEcho6_spec hwq hecho (by omega)
       simp only [Classical.not_not] at hqd hqs hid
       simp only [genuineIcmp6, hview, hquote, e1, e2, e3, Bool.false_eq_true, if_false, L3.src]
       simp only [Bool.and_eq_true, Bool.or_eq_true, decide_eq_true_eq, hty, hqd, hqs, hid, hsent, hmn, hmx,
         and_true, true_and]
-      exact hety
+      exact ⟨by omega, hety⟩
     · split at h
       · -- echo reply
         rename_i hty
@@ -618,6 +624,8 @@ theorem udp6_sound {s : UdpSt} {pkt : Bytes} {t : Nat} {a : Bytes} {d : Bool} {t
   · simp at h
   rename_i info hinfo
   split at h; · simp at h
+  rename_i hqp
+  split at h; · simp at h
   rename_i sp dp hports
   split at h; · simp at h
   rename_i hdst
@@ -648,28 +656,8 @@ theorem udp6_sound {s : UdpSt} {pkt : Bytes} {t : Nat} {a : Bytes} {d : Bool} {t
       obtain ⟨k, hview, hwo⟩ := view6_of_ip6 hip ⟨b0, hb0, hver⟩ hup hic hty58
       have hid := hinv p hpm
       simp only [udpId, h6, if_false, Build.udp6Id] at hid
-      -- the quoted next header cannot be hop-by-hop: the identifier would be 0, but ids are ≥ 13
-      have hnz : u8 (pkt.take bufSize) (k + 8 + 6) ≠ some 0 := by
-        intro hz
-        unfold icmpInfo6 at hinfo
-        split at hinfo; · simp at hinfo
-        split at hinfo; · simp at hinfo
-        cases hq : ip6 (i.payload.drop 4) with
-        | none => simp [hq] at hinfo
-        | some q =>
-          simp [hq] at hinfo
-          obtain ⟨_, hnh, _, _, _, _⟩ := ip6_spec hq
-          obtain ⟨_, _, hpl, _⟩ := icmp6_spec hic
-          have hwq0 : Window (i.payload.drop 4) (pkt.take bufSize) (k + 8) := by
-            rw [hpl]
-            have := ((Window.drop (hd.payload.drop 4) 4).trans (Window.drop hd.payload 4)).trans hwo
-            simpa [Nat.add_assoc] using this
-          have e5 := hwq0.u8 hnh
-          rw [hz] at e5
-          simp only [Option.some.injEq] at e5
-          have : info.wrappedId = 0 := by rw [← hinfo]; simp [← e5]
-          omega
-      obtain ⟨qnh, qplen, hquote, hwq, hwid⟩ := quote6_of_parse hwo hic hinfo hnz
+      have hqp' : info.proto = 17 := by simpa using hqp
+      obtain ⟨qnh, qplen, hquote, hwq, hwid, _⟩ := quote6_of_parse hwo hic hinfo (by omega)
       obtain ⟨hpa, _⟩ := quotedPorts_spec hwq hports
       have hdst' : info.qdst = s.cfg.target ∧ dp = s.cfg.tport := by simpa using hdst
       have hsrc' := loosen_or hsrc
